@@ -89,6 +89,70 @@ type smShape struct {
 
 func smForeign(i smIDs) *schema.ScopeSchema { return schema.NewScopeSchema(smLeafObject(i.foreign)) }
 
+type smHolder struct {
+	Pair map[string]any `json:"pair"`
+	Name *string        `json:"name"`
+}
+
+func smEndpoint(id string) *schema.ObjectSchema {
+	return schema.NewObjectSchema(id, map[string]*schema.PropertySchema{
+		"host": smProp(schema.NewStringSchema(nil, nil, nil), `"localhost"`),
+		"port": smProp(schema.NewIntSchema(nil, nil, nil), `7`),
+	})
+}
+
+// smShared: one map-backed object with defaults reached through references TWICE below an unset, non-pointer
+// property of a struct-mapped parent - as two sibling properties, or as a diamond through two intermediate
+// objects. Sharing is not recursion: every occurrence gets the defaults, whichever is walked first.
+func smShared(diamond bool) smShape {
+	name := "shared-siblings"
+	if diamond {
+		name = "shared-diamond"
+	}
+	return smShape{
+		name:  name,
+		valid: func(i smIDs) bool { return i.root != i.mid && i.root != i.foreign && i.mid != i.foreign && i.outer == "A" },
+		build: func(i smIDs, inline bool) schema.Type {
+			end := func() schema.Type {
+				if inline {
+					return smEndpoint(i.foreign)
+				}
+				return schema.NewRefSchema(i.foreign, nil)
+			}
+			var pairProps map[string]*schema.PropertySchema
+			if diamond {
+				via := func(id string) schema.Type {
+					return schema.NewObjectSchema(id, map[string]*schema.PropertySchema{"to": smProp(end(), ""), "w": smProp(schema.NewIntSchema(nil, nil, nil), `1`)})
+				}
+				pairProps = map[string]*schema.PropertySchema{"src": smProp(via("Src"), ""), "dst": smProp(via("Dst"), ""), "label": smProp(schema.NewStringSchema(nil, nil, nil), `"pair"`)}
+			} else {
+				pairProps = map[string]*schema.PropertySchema{"left": smProp(end(), ""), "right": smProp(end(), ""), "third": smProp(end(), ""), "label": smProp(schema.NewStringSchema(nil, nil, nil), `"pair"`)}
+			}
+			pair := schema.NewObjectSchema(i.mid, pairProps)
+			var pairType schema.Type = schema.NewRefSchema(i.mid, nil)
+			if inline {
+				pairType = pair
+			}
+			root := schema.NewStructMappedObjectSchema[smHolder](i.root, map[string]*schema.PropertySchema{
+				"pair": smProp(pairType, ""),
+				"name": smProp(schema.NewStringSchema(nil, nil, nil), ""),
+			})
+			if inline {
+				return schema.NewScopeSchema(root)
+			}
+			return schema.NewScopeSchema(root, pair, smEndpoint(i.foreign))
+		},
+		inputs: []any{
+			map[string]any{}, map[string]any{}, map[string]any{}, map[string]any{}, map[string]any{}, map[string]any{},
+			map[string]any{"name": "n"}, map[string]any{"name": "m"}, map[string]any{"name": "o"},
+			map[string]any{"pair": map[string]any{}},
+			map[string]any{"pair": map[string]any{"label": "own"}},
+		},
+	}
+}
+
+func init() { smShapes = append(smShapes, smShared(false), smShared(true)) }
+
 var smShapes = []smShape{
 	{
 		// flat: root{name, inner -> X:foreign}
@@ -304,6 +368,14 @@ func groupStructMapped(s *sink) {
 							s.stats["structs:inputs"]++
 							if collide {
 								s.stats["structs:inputs-colliding-ids"]++
+							}
+							// repeated evaluation on fresh instances: one (schema, argument), one answer
+							for rep := 0; rep < 6; rep++ {
+								if again := smObserve(func() schema.Type { return sh.build(i, false) }, in); again != a {
+									s.finding(Finding{Prop: "C12", What: fmt.Sprintf("struct-mapped tree %q: Unserialize of one argument gives different results from one evaluation to the next", sh.name),
+										Input: hx.Enc(in), Detail: []string{"one evaluation: " + a, "another:        " + again}})
+									break
+								}
 							}
 							if a != b {
 								s.finding(Finding{Prop: "C14", What: fmt.Sprintf("struct-mapped tree %q with object IDs root=%s mid=%s foreign=%s outer=%s: the tree with references and the tree with the references inlined disagree", sh.name, root, mid, foreign, outer),
